@@ -450,9 +450,50 @@ Proof.
   destruct (exists_last (l := x :: l)) as [r [z E]]; [discriminate|]. eauto.
 Qed.
 
+From Coq Require Import Permutation Sorted.
+Section ArrOpsProofs.
+(* the C library's qsort with the caller's comparison: all that is assumed here is that it
+   permutes the block it is given (sortedness is only needed for [arr_sort_sorted]) *)
+Variable qsort : list Z -> list Z.
+Hypothesis qsort_perm : forall l, Permutation (qsort l) l.
+
+Lemma qsort_length l : length (qsort l) = length l.
+Proof. apply Permutation_length. apply qsort_perm. Qed.
+
+Lemma qsort_short l : length l < 2 -> qsort l = l.
+Proof.
+  intros H. pose proof (qsort_perm l) as P.
+  destruct l as [|x [|y r]]; [| |simpl in H; lia].
+  - apply Permutation_nil. apply Permutation_sym. exact P.
+  - apply Permutation_length_1_inv. apply Permutation_sym. exact P.
+Qed.
+
+(* ares_array_sort sorts exactly the members, in place *)
+Theorem arr_sort_refines a :
+  arr_inv_full a ->
+  exists a', arr_sort qsort a = Ok a' /\ arr_inv_full a' /\ arr_abs a' = qsort (arr_abs a).
+Proof.
+  intros Hinv. pose proof (arr_abs_length a Hinv) as Hlen. destruct Hinv as [Hroom Hzero].
+  unfold arr_sort.
+  destruct (Nat.ltb_spec (a_cnt a) 2) as [Hs|Hl].
+  - exists a. split; [reflexivity|]. split; [split; assumption|].
+    symmetry. apply qsort_short. lia.
+  - rewrite (proj2 (Nat.ltb_ge _ _)) by exact Hroom.
+    eexists. split; [reflexivity|].
+    destruct a as [cells cnt off]. unfold arr_inv_full, arr_abs, alloc_cnt in *. cbn [a_cells a_cnt a_off] in *.
+    set (mem := firstn cnt (skipn off cells)) in *.
+    assert (length (firstn off cells) = off) as Hpre by (rewrite firstn_length; lia).
+    assert (length (qsort mem) = cnt) as Hq by (rewrite qsort_length; exact Hlen).
+    split; [split|].
+    + len_norm. lia.
+    + exact Hzero.
+    + rewrite (skipn_app_l (firstn off cells)) by (symmetry; exact Hpre).
+      apply firstn_app_l. symmetry. exact Hq.
+Qed.
+
 Definition arr_step_ok (ok : bool) (a : arr) (o : arr_op) : Prop :=
-  let '(a', r) := arr_step ok a o in
-  let '(l', r') := aspec_step (arr_abs a) o in
+  let '(a', r) := arr_step qsort ok a o in
+  let '(l', r') := aspec_step qsort (arr_abs a) o in
   arr_inv_full a' /\
   ((r = r' /\ arr_abs a' = l')
    \/ (ok = false /\ arr_op_is_insert o = true /\ r' = RStatus ARES_SUCCESS
@@ -505,7 +546,7 @@ Theorem arr_step_refines ok a o : arr_inv_full a -> arr_step_ok ok a o.
 Proof.
   intros Hinv. unfold arr_step_ok.
   pose proof (arr_abs_length a Hinv) as Hlen.
-  destruct o as [idx v | v | v | idx | | | idx | | | | n]; cbn [arr_step aspec_step arr_op_is_insert].
+  destruct o as [idx v | v | v | idx | | | idx | | | | n | ]; cbn [arr_step aspec_step arr_op_is_insert].
   - (* insert_at *)
     pose proof (arr_step_insert ok a idx v Hinv) as H.
     destruct (arr_res_ins a (arr_insertdata_at ok a idx v)) as [a' r].
@@ -581,6 +622,9 @@ Proof.
         split; [split; [len_norm; lia | exact Hzero]|]. left. split; [reflexivity|].
         apply arr_abs_pad. exact Hroom.
       * rewrite E. cbn [arr_res_ins]. split; [exact Hinv|]. right. auto.
+  - (* sort *)
+    destruct (arr_sort_refines a Hinv) as [a' [E [Hinv' Habs]]].
+    rewrite E. cbn [arr_res_ins]. split; [exact Hinv'|]. left. auto.
 Qed.
 
 (* ares_array_finish hands out exactly the members, in order *)
@@ -602,6 +646,31 @@ Proof.
     rewrite Hf. reflexivity.
 Qed.
 
+(* with the rest of what the C standard promises of qsort, the members end up sorted and are
+   the same multiset *)
+Theorem arr_sort_sorted (cmp : Z -> Z -> Z) a :
+  (forall l, Sorted (fun x y => (cmp x y <= 0)%Z) (qsort l)) ->
+  arr_inv_full a ->
+  exists a', arr_sort qsort a = Ok a' /\ arr_inv_full a'
+             /\ Sorted (fun x y => (cmp x y <= 0)%Z) (arr_abs a')
+             /\ Permutation (arr_abs a') (arr_abs a).
+Proof.
+  intros Hs Hinv. destruct (arr_sort_refines a Hinv) as [a' [E [Hinv' Habs]]].
+  exists a'. rewrite Habs. auto.
+Qed.
+
+Theorem arr_sort_full (cmp : Z -> Z -> Z) :
+  (forall l, Sorted (fun x y => (cmp x y <= 0)%Z) (qsort l)) ->
+  forall a, arr_inv_full a ->
+  exists a', arr_sort qsort a = Ok a' /\ arr_inv_full a'
+             /\ arr_abs a' = qsort (arr_abs a)
+             /\ Sorted (fun x y => (cmp x y <= 0)%Z) (arr_abs a')
+             /\ Permutation (arr_abs a') (arr_abs a).
+Proof.
+  intros Hs a Hinv. destruct (arr_sort_refines a Hinv) as [a' [E [Hi Habs]]].
+  exists a'. rewrite Habs. auto.
+Qed.
+
 (* ---------- lifted to operation sequences ---------- *)
 (* C19, array: with an allocator that never refuses, every sequence of API calls on a fresh
    array returns, call by call, exactly what the plain list returns, and the members at the
@@ -609,23 +678,23 @@ Qed.
    removal pattern before it. *)
 Theorem arr_run_refines_from a ops :
   arr_inv_full a ->
-  let '(a', rs) := arr_run a (map (fun o => (true, o)) ops) in
-  let '(l', rs') := aspec_run (arr_abs a) ops in
+  let '(a', rs) := arr_run qsort a (map (fun o => (true, o)) ops) in
+  let '(l', rs') := aspec_run qsort (arr_abs a) ops in
   arr_inv_full a' /\ rs = rs' /\ arr_abs a' = l'.
 Proof.
   revert a. induction ops as [|o ops IH]; intros a Hinv; cbn [map arr_run aspec_run].
   - auto.
   - pose proof (arr_step_refines true a o Hinv) as Hs. unfold arr_step_ok in Hs.
-    destruct (arr_step true a o) as [a1 r].
-    destruct (aspec_step (arr_abs a) o) as [l1 r'].
+    destruct (arr_step qsort true a o) as [a1 r].
+    destruct (aspec_step qsort (arr_abs a) o) as [l1 r'].
     destruct Hs as [Hinv1 [[Hr Habs] | [Hf _]]]; [|discriminate].
     specialize (IH a1 Hinv1). rewrite Habs in IH.
-    destruct (arr_run a1 (map (fun o0 => (true, o0)) ops)) as [a2 rs].
-    destruct (aspec_run l1 ops) as [l2 rs'].
+    destruct (arr_run qsort a1 (map (fun o0 => (true, o0)) ops)) as [a2 rs].
+    destruct (aspec_run qsort l1 ops) as [l2 rs'].
     destruct IH as [Hinv2 [Hrs Habs2]]. subst. auto.
 Qed.
 
-Lemma aspec_step_no_ub l o : snd (aspec_step l o) <> RUB.
+Lemma aspec_step_no_ub l o : snd (aspec_step qsort l o) <> RUB.
 Proof.
   destruct o; cbn [aspec_step]; try discriminate.
   - destruct (spec_insert l idx v); discriminate.
@@ -634,25 +703,25 @@ Proof.
   - destruct l; discriminate.
 Qed.
 
-Lemma aspec_run_no_ub l ops : ~ In RUB (snd (aspec_run l ops)).
+Lemma aspec_run_no_ub l ops : ~ In RUB (snd (aspec_run qsort l ops)).
 Proof.
   revert l. induction ops as [|o ops IH]; intros l; cbn [aspec_run]; [intros []|].
   pose proof (aspec_step_no_ub l o) as H1.
-  destruct (aspec_step l o) as [l1 r]. specialize (IH l1).
-  destruct (aspec_run l1 ops) as [l2 rs]. cbn [snd] in *.
+  destruct (aspec_step qsort l o) as [l1 r]. specialize (IH l1).
+  destruct (aspec_run qsort l1 ops) as [l2 rs]. cbn [snd] in *.
   intros [E|E]; [congruence | exact (IH E)].
 Qed.
 
 Theorem arr_run_refines ops :
-  let '(a', rs) := arr_run arr_create (map (fun o => (true, o)) ops) in
-  let '(l', rs') := aspec_run [] ops in
+  let '(a', rs) := arr_run qsort arr_create (map (fun o => (true, o)) ops) in
+  let '(l', rs') := aspec_run qsort [] ops in
   rs = rs' /\ arr_abs a' = l' /\ ~ In RUB rs.
 Proof.
   pose proof (arr_run_refines_from arr_create ops (proj1 arr_create_inv)) as H.
   rewrite (proj2 arr_create_inv) in H.
-  destruct (arr_run arr_create (map (fun o => (true, o)) ops)) as [a' rs].
+  destruct (arr_run qsort arr_create (map (fun o => (true, o)) ops)) as [a' rs].
   pose proof (aspec_run_no_ub [] ops) as Hnub.
-  destruct (aspec_run [] ops) as [l' rs'].
+  destruct (aspec_run qsort [] ops) as [l' rs'].
   destruct H as [_ [Hrs Habs]]. subst. auto.
 Qed.
 
@@ -661,17 +730,17 @@ Qed.
    allocator did refuse. *)
 Theorem arr_run_alloc_refines_from a ops :
   arr_inv_full a ->
-  let '(a', rs) := arr_run a ops in
-  arr_inv_full a' /\ aspec_trace (arr_abs a) ops rs (arr_abs a').
+  let '(a', rs) := arr_run qsort a ops in
+  arr_inv_full a' /\ aspec_trace qsort (arr_abs a) ops rs (arr_abs a').
 Proof.
   revert a. induction ops as [|[ok o] ops IH]; intros a Hinv; cbn [arr_run aspec_trace].
   - auto.
   - pose proof (arr_step_refines ok a o Hinv) as Hs. unfold arr_step_ok in Hs.
-    destruct (arr_step ok a o) as [a1 r].
-    destruct (aspec_step (arr_abs a) o) as [l1 r'] eqn:Es.
+    destruct (arr_step qsort ok a o) as [a1 r].
+    destruct (aspec_step qsort (arr_abs a) o) as [l1 r'] eqn:Es.
     destruct Hs as [Hinv1 Hs].
     specialize (IH a1 Hinv1).
-    destruct (arr_run a1 ops) as [a2 rs]. destruct IH as [Hinv2 Htr].
+    destruct (arr_run qsort a1 ops) as [a2 rs]. destruct IH as [Hinv2 Htr].
     split; [exact Hinv2|]. cbn [fst snd].
     destruct Hs as [[Hr Habs] | [Hf [Hins [Hr' [Hr Ha]]]]].
     + left. subst. auto.
@@ -679,12 +748,12 @@ Proof.
 Qed.
 
 Theorem arr_run_alloc_refines ops :
-  let '(a', rs) := arr_run arr_create ops in
-  aspec_trace [] ops rs (arr_abs a') /\ ~ In RUB rs.
+  let '(a', rs) := arr_run qsort arr_create ops in
+  aspec_trace qsort [] ops rs (arr_abs a') /\ ~ In RUB rs.
 Proof.
   pose proof (arr_run_alloc_refines_from arr_create ops (proj1 arr_create_inv)) as H.
   rewrite (proj2 arr_create_inv) in H.
-  destruct (arr_run arr_create ops) as [a' rs]. destruct H as [_ H]. split; [exact H|].
+  destruct (arr_run qsort arr_create ops) as [a' rs]. destruct H as [_ H]. split; [exact H|].
   clear - H. revert H. generalize (@nil Z) as l. revert rs.
   induction ops as [|[ok o] ops IH]; intros rs l H; destruct rs as [|r rs]; cbn [aspec_trace] in H; try contradiction.
   - intros [].
@@ -698,7 +767,7 @@ Qed.
 (* the hypotheses are satisfiable by a non-trivial state: an array drained from the front up to
    its allocation size and refilled (the pattern that used to make every insert fail) *)
 Example arr_run_example :
-  arr_run arr_create (map (fun o => (true, o))
+  arr_run qsort arr_create (map (fun o => (true, o))
     [AInsLast 1; AInsLast 2; AInsLast 3; AInsLast 4; ARemFirst; ARemFirst; ARemFirst; ARemFirst;
      AInsLast 5; AInsFirst 6; AInsAt 1 7; ARemAt 1; ALast])
   = (mkArr [6; 5; 5; 4]%Z 2 0,
@@ -707,11 +776,12 @@ Example arr_run_example :
 Proof. vm_compute. reflexivity. Qed.
 
 Theorem arr_run_finish ops :
-  arr_finish (fst (arr_run arr_create (map (fun o => (true, o)) ops))) = Ok (fst (aspec_run [] ops)).
+  arr_finish (fst (arr_run qsort arr_create (map (fun o => (true, o)) ops))) = Ok (fst (aspec_run qsort [] ops)).
 Proof.
   pose proof (arr_run_refines_from arr_create ops (proj1 arr_create_inv)) as H.
   rewrite (proj2 arr_create_inv) in H.
-  destruct (arr_run arr_create (map (fun o => (true, o)) ops)) as [a' rs].
-  destruct (aspec_run [] ops) as [l' rs'].
+  destruct (arr_run qsort arr_create (map (fun o => (true, o)) ops)) as [a' rs].
+  destruct (aspec_run qsort [] ops) as [l' rs'].
   destruct H as [Hinv [_ Habs]]. cbn [fst]. rewrite <- Habs. apply arr_finish_refines. exact Hinv.
 Qed.
+End ArrOpsProofs.
